@@ -310,13 +310,15 @@ Theorem C03_frame_write_head : forall c r status hs ws kind chunks hc,
 Proof. exact c03_frame_write_head. Qed.
 Print Assumptions C03_frame_write_head.
 
-(* (3) 1xx / 204 / 304 without a declared length: whatever the application writes
+(* (3) 1xx / 204 / 304 without a declared length, ANY kind of iterable (a seekable file
+   wrapper included: nothing is handed over after such a status, fix d117733; no
+   [no_handover] hypothesis is needed): whatever the application writes
    or yields is dropped, the head carries neither Transfer-Encoding nor
    Content-Length and announces "Connection: close", the client (HEAD or not) reads
    the head and nothing is left over, and the connection is closed. *)
 Theorem C03_frame_nobody : forall c r status hs ws kind chunks hc,
   cfg_clean c ->
-  r_error r = None -> no_handover kind ws -> len1 kind = false -> Forall (not_cl py_lower) hs ->
+  r_error r = None -> len1 kind = false -> Forall (not_cl py_lower) hs ->
   plain_fields py_cap (strs_of hs) ->
   no_body_st status = true ->
   let res := run_task c r (wapp status hs ws kind chunks hc) None in
@@ -326,9 +328,32 @@ Theorem C03_frame_nobody : forall c r status hs ws kind chunks hc,
     /\ (forall h, In h (strs_of hs) -> In (client_field (norm_field py_cap h)) fields)
     /\ In (client_field f_close) fields
     /\ filter (field_is te_name) fields = [] /\ filter (field_is cl_name) fields = []
-    /\ o_close res = true /\ o_next res = false.
+    /\ o_close res = true /\ o_next res = false
+    /\ o_handover res = false /\ o_closes res = (if hc then 1 else 0)%nat.
 Proof. exact c03_frame_nobody. Qed.
 Print Assumptions C03_frame_nobody.
+
+(* ... in particular a SEEKABLE file wrapper (wsgi.file_wrapper, close() present) returned
+   with a 1xx/204/304 status and no declared length: it is not handed over to the channel
+   (the hand-over requires has_body: fix d117733; before it the file's bytes followed the
+   body-less head), the task iterates it, write() drops every block, the task closes the
+   file exactly once; the client (HEAD or not) reads the head, nothing is left over, the
+   head says "Connection: close" and the connection is closed. *)
+Theorem C03_frame_file_nobody : forall c r status hs chunks,
+  cfg_clean c ->
+  r_error r = None -> Forall (not_cl py_lower) hs -> plain_fields py_cap (strs_of hs) ->
+  no_body_st status = true ->
+  let res := run_task c r (fapp status hs chunks true) None in
+  o_raw res = None ->
+  exists fields,
+    parse_one (r_head r) (wire (o_writes res)) = Some (mkResponse (sl_of r status) fields FNoBody [], [])
+    /\ (forall h, In h (strs_of hs) -> In (client_field (norm_field py_cap h)) fields)
+    /\ In (client_field f_close) fields
+    /\ filter (field_is te_name) fields = [] /\ filter (field_is cl_name) fields = []
+    /\ o_close res = true /\ o_next res = false
+    /\ o_handover res = false /\ o_closes res = 1%nat.
+Proof. exact c03_frame_file_nobody. Qed.
+Print Assumptions C03_frame_file_nobody.
 
 (* (1)+(2) a declared Content-Length ([declared_ok]: one such header at any
    position, decimal value cl, plain names around it, a status with a body).
@@ -397,7 +422,9 @@ Print Assumptions C03_frame_length_head.
 
 (* (4) wsgi.file_wrapper.  Not seekable, or after write(): iterated in blocks up to
    the first empty read -- that is [no_handover] in the five theorems above.
-   Seekable, nothing written before, something to send ([fapp]): prepare(size)
+   Seekable, nothing written before, something to send ([fapp]), and a status WITH a
+   body ([no_body_st status = false]: since fix d117733 this is simply the case split
+   of the hand-over condition -- for 1xx/204/304 see C03_frame_file_nobody): prepare(size)
    reconciles the length, write(b"") sends the head, the file is handed to the
    channel (o_handover; close() is the channel's business).  Without a declared
    length the server declares the file's size and the client reads exactly the
